@@ -539,6 +539,42 @@ func c34Run(t *testing.T, r *verifsim.Run) {
 	}
 	all := append(append([]*c34Tx(nil), own...), spam...)
 
+	// ---- long history: many later (dust) payments to the wallet after its own transactions ----
+	if !fresh && tp.Chance("long-history", 1, 5) {
+		n := []int{49, 50, 51, 52}[tp.Choose("long-boundary", 4)]
+		if tp.Chance("long-far", 1, 2) {
+			n = 50 + tp.Choose("long-n", 81) // 50..130
+		}
+		nMem := tp.Choose("long-mempool", 4)
+		mix := tp.Uint64("long-mix")
+		for i := 0; i < n+nMem; i++ {
+			seed := sha256.Sum256([]byte(fmt.Sprintf("c34-dust-%d-%d", mix, i)))
+			var in bitcoin.Hash
+			copy(in[:], seed[:])
+			script := c34Copy(s.p2pkh)
+			if seed[0]&1 == 1 {
+				script = c34Copy(s.p2wpkh)
+			}
+			tx := &bitcoin.Transaction{
+				Inputs:  []*bitcoin.TransactionInput{{Outpoint: &bitcoin.TransactionOutpoint{TransactionHash: in, OutputIndex: uint32(seed[1] % 3)}, Sequence: 0xffffffff}},
+				Outputs: []*bitcoin.TransactionOutput{{Value: int64(546 + int(seed[2])), PublicKeyScript: script}},
+			}
+			if seed[3]&3 == 0 { // the wallet output is not the first one
+				tx.Outputs = append([]*bitcoin.TransactionOutput{{Value: 1000, PublicKeyScript: append([]byte{0x00, 0x14}, seed[4:24]...)}}, tx.Outputs...)
+			}
+			t := g.finish("dust", tx)
+			if i < n {
+				t.state = c34Confirmed
+				s.confd = append(s.confd, t)
+			} else {
+				t.state = c34Mempool
+				s.mempool = append(s.mempool, t)
+			}
+		}
+		r.Probe("long-history-50-plus-later-payments")
+		r.Logf("long history: %d later dust payments confirmed, %d in the mempool", n, nMem)
+	}
+
 	// ---- registered main UTXO hash ----
 	type wout struct {
 		tx  *c34Tx
@@ -593,7 +629,11 @@ func c34Run(t *testing.T, r *verifsim.Run) {
 	}
 	describe := func(l []*c34Tx) string {
 		out := ""
-		for _, tx := range l {
+		for i, tx := range l {
+			if i >= 12 {
+				out += fmt.Sprintf("... %d more ", len(l)-i)
+				break
+			}
 			out += tx.label + " "
 		}
 		return out
@@ -666,6 +706,11 @@ func c34Run(t *testing.T, r *verifsim.Run) {
 				}
 				if len(s.confd) > 0 && s.confd[len(s.confd)-1] != w.tx {
 					r.Probe("determine-found-not-latest")
+				}
+				for k, tx := range s.confd {
+					if tx == w.tx && len(s.confd)-k > 50 {
+						r.Probe("determine-found-50-plus-transactions-deep")
+					}
 				}
 			}
 		}
